@@ -25,6 +25,7 @@ type SpecScope struct {
 	post     bool
 	boundSet map[string]bool // names that are quantifier-bound (for trigger inference)
 	loopPre  *State          // state on entry of the enclosing loop (before(e))
+	loopHead *State          // state at the head of the current iteration (athead(e))
 }
 
 func (fv *FuncVC) specScope(st *State, old *State, post bool) *SpecScope {
@@ -347,7 +348,8 @@ func (fv *FuncVC) specIndex(base, idx Val, sc *SpecScope) Val {
 		if mt, ok := types.Unalias(base.GoT).Underlying().(*types.Map); ok {
 			ks, vs := fv.th.sortOf(mt.Key()), fv.th.sortOf(mt.Elem())
 			d, vh, _ := fv.declMapHeaps(ks, vs)
-			has := sx("select", sx("select", sc.heap(d), base.T), idx.T)
+			// reading a nil map yields the zero value, exactly as in the code translation
+			has := mkAnd(mkNot(mkEq(base.T, "nil")), sx("select", sx("select", sc.heap(d), base.T), idx.T))
 			return Val{mkIte(has, sx("select", sx("select", sc.heap(vh), base.T), idx.T), fv.th.zero(mt.Elem())), vs, mt.Elem()}
 		}
 	}
@@ -647,6 +649,13 @@ func (fv *FuncVC) specCall(x *SCall, sc *SpecScope) Val {
 			c := sc.child()
 			c.st = sc.loopPre
 			return fv.specEval(x.Args[0], c)
+		case "athead":
+			if sc.loopHead == nil {
+				specFail("athead() is only available in endassert clauses")
+			}
+			c := sc.child()
+			c.st = sc.loopHead
+			return fv.specEval(x.Args[0], c)
 		case "atlock":
 			// value of an expression right after the (last) Lock() of this function
 			if fv.lockSnap == nil {
@@ -691,6 +700,23 @@ func (fv *FuncVC) specCall(x *SCall, sc *SpecScope) Val {
 		}
 		if pd := fv.findPred(id.Name, sc); pd != nil {
 			return fv.applyPred(pd, args(), sc)
+		}
+		if sf := fv.w.Externs.SpecFuncs[id.Name]; sf != nil {
+			a := args()
+			if len(a) != len(sf.Params) {
+				specFail("specfunc %s: %d arguments expected", sf.Name, len(sf.Params))
+			}
+			rs, rt := sc.parseSpecType(sf.Ret)
+			name := "sf$" + sanitize(sf.Name)
+			var sorts []Sort
+			ts := make([]string, len(a))
+			for i, p := range sf.Params {
+				ps, _ := sc.parseSpecType(p.Type)
+				sorts = append(sorts, ps)
+				ts[i] = a[i].T
+			}
+			th.declFun(name, sorts, rs)
+			return Val{sx(name, ts...), rs, rt}
 		}
 		// a function of the current package called by name
 		if sc.pkg != nil {
